@@ -85,6 +85,7 @@ type plScenario struct {
 	Clock    int  // number of optional "advance the clock by one tick interval" actions
 	ParkRegister bool
 	RetryTimes int
+	PointInAddPartition bool // the per-handler dropped-collection probe inside AddPartition is a scheduling point
 	MsgPosPChannel bool // message positions name the source pchannel (as the MQ layer does) instead of the vchannel
 	HeavyBound int // lower deviation bound for a scenario with many streams
 	Hooks      string // which verif yield points park: "" = pack.computed + barrier.signal, "all" = every hook
@@ -345,6 +346,8 @@ type plRun struct {
 	replicateID string
 	cancel      context.CancelFunc
 	clockLeft   int
+	wrapped     map[*replicateChannelHandler]bool
+	inAddPart   map[int64]bool
 }
 
 var plExecSeq int
@@ -391,7 +394,7 @@ func plExecute(t *testing.T, sc *plScenario, ctl *sched.Ctl) *plRun {
 	pool := conc.NewPool[struct{}](10)
 	replicatePool = pool
 	r := &plRun{sc: sc, ctl: ctl, srcByID: map[string]*plSrcMsg{}, outs: map[string][]*api.ReplicateMsg{}, delivered: map[string]int{},
-		driverErr: map[string]error{}, driverDone: map[string]bool{}, replicateID: fmt.Sprintf("rid%d", plExecSeq), clockLeft: sc.Clock}
+		driverErr: map[string]error{}, driverDone: map[string]bool{}, wrapped: map[*replicateChannelHandler]bool{}, inAddPart: map[int64]bool{}, replicateID: fmt.Sprintf("rid%d", plExecSeq), clockLeft: sc.Clock}
 	r.mq = fakemq.New(plSched{r})
 	r.mq.ParkRegister = sc.ParkRegister
 	r.target = &plTarget{colls: map[string]*model.CollectionInfo{}}
@@ -472,6 +475,8 @@ func plExecute(t *testing.T, sc *plScenario, ctl *sched.Ctl) *plRun {
 				}
 				err = r.mgr.StartReadCollection(tctx, &model.DatabaseInfo{ID: 1, Name: c.DB}, c.info(), seek, nil)
 			case "addpart":
+				r.wrapHandlers()
+				r.inAddPart[schedGoid()] = true
 				err = r.mgr.AddPartition(tctx, &model.DatabaseInfo{ID: 1, Name: c.DB}, c.info(),
 					&pb.PartitionInfo{PartitionID: c.partID(d.Part), PartitionName: d.Part, CollectionId: c.ID, PartitionCreatedTimestamp: plTs(950, 0), State: d.PartState})
 			case "stop":
@@ -530,6 +535,29 @@ func (r *plRun) teardown() {
 	r.cancel()
 	r.mq.Close()
 	replicatePool.Release()
+}
+
+// wrapHandlers turns the handlers' dropped-collection probe into a scheduling point for goroutines that are inside
+// AddPartition (white-box: the probe is a function field of the handler and is called outside every lock).
+func (r *plRun) wrapHandlers() {
+	if !r.sc.PointInAddPartition {
+		return
+	}
+	r.mgr.channelLock.RLock()
+	defer r.mgr.channelLock.RUnlock()
+	for key, h := range r.mgr.channelHandlerMap {
+		if r.wrapped[h] {
+			continue
+		}
+		r.wrapped[h] = true
+		orig, key := h.isDroppedCollection, key
+		h.isDroppedCollection = func(id int64) bool {
+			if r.inAddPart[schedGoid()] {
+				r.ctl.Point("addpart:"+key, "probe", false)
+			}
+			return orig(id)
+		}
+	}
 }
 
 type plSched struct{ r *plRun }
